@@ -154,7 +154,7 @@ fn k_update_headers_3lods() {
     core::mem::forget(mdl);
 }
 
-//@unit props=C07 label=S tier=thorough fn=model::MDL::update_headers bound="2 LODs (2 meshes + 1 mesh), three streams of strides {12,8,4}; all counts symbolic (index counts < 2^24)"
+//@unit props=C07 label=S tier=parked fn=model::MDL::update_headers bound="2 LODs (2 meshes + 1 mesh), three streams of strides {12,8,4}; all counts symbolic (index counts < 2^24)"
 //@desc same contract on a second layout: three streams per mesh, two meshes in LOD 0 and one in LOD 1
 #[kani::proof]
 #[kani::unwind(14)]
